@@ -29,6 +29,8 @@ def scalar(kind):
         return st.integers(0, 2).map(float)
     if kind == 'pos':
         return st.integers(0, 64).map(lambda k: k / 8.0)
+    if kind == 'unit':
+        return st.integers(0, 64).map(lambda k: k / 64.0)
     if kind == 'posfloat':
         return milli_float(0, 100)
     raise ValueError(kind)
